@@ -2177,6 +2177,18 @@ def _run_asan_lmax(case, rec, rng):
             info = None
         rec.require("driven_call_returned[lmax]", True)
         sample = sample or {"oracle": "lmax drivers", "lmax": L, "e2e": s1, "lowlevel": info}
+    # nothing in the package bounds lmax: grids with lmax 17 ... 24 are accepted, so the harmonic tables built for them
+    # (recursive_sph_harm_vec, constant prefactor tables in sph_harm.c) are driven under the sanitizer too
+    for L in ([17, 20, 24] if case["idx"] % 2 == 0 else [18, 22]):
+        mol, g, pn = _grid_ctx(rng, ["He", "HF"][case["idx"] % 2], L)
+        ind = g.grids_indexer
+        th_g = np.ascontiguousarray(rng.normal(size=(ind.all_weights.size, 2)))
+        th_r = ind.empty_rlmq(nalpha=2)
+        ind.reduce_angc_ylm_(th_r, th_g, a2y=True)
+        rec.require("high_lmax_tables_finite", bool(np.all(np.isfinite(ind.ylm)) and np.all(np.isfinite(th_r))),
+                    mechanism="AtomicGridsIndexer[lmax>=17]:nonfinite", detail={"lmax": L})
+        rec.tag("grids_lmax", L)
+        rec.nontrivial("hiL|%d" % L)
     rec.set_sample(sample)
 
 
